@@ -27,6 +27,7 @@ let () =
   | "c06ix" -> per_line M_c06.ixline
   | "c15" -> per_line M_c15.line
   | "c02" -> per_line M_c02.line
+  | "c02v" -> per_line M_c02.vline
   | "cdir" -> per_line M_cdir.line
   | "cvol" -> per_line M_cvol.line
   | _ -> prerr_endline ("unknown mode " ^ mode); exit 2
